@@ -25,7 +25,7 @@
                            a programme of read-only / rescaling operations leaves the table as it is - but never shorter
                            (LazyTable!TableNeverShrinks)
      n                     length of the table of the sequential run
-     loc_len, loc_ok       A's local list
+     loc_len, loc_ok       A's local list (loc_known = FALSE: none was found at this stop)
      pub_len, pub_ok, same self.__precompute before B ran; same = it IS A's local list
      z1, co_ok             self.__coords before B ran
      b_len, b_ok, b_z1, b_co_ok    the same after B's operations;  res_bad = number of B results
@@ -80,8 +80,12 @@ Verdict(ev, prev, hasPrev) ==
     ELSE IF ~LocOK(s) THEN "local-list"
     ELSE IF ~AloneOK(s) THEN "published-before-complete"
     ELSE IF hasPrev /\ ev.idx <= prev.idx THEN "order"
-    ELSE IF hasPrev /\ ev.idx = prev.idx + 1 /\ ev.adj /\ ~Step1(AtS(prev), s) THEN "builder-step"
-    ELSE IF hasPrev /\ (ev.idx > prev.idx + 1 \/ ~ev.adj) /\ ~StepN(AtS(prev), s) THEN "builder-steps"
+    \* (one source line of the builder may be any number of statements of the model - a call of a helper that builds the
+    \*  whole list, say - so the step from one pre-emption point to the next is required to be a finite sequence of builder
+    \*  statements, never exactly one: how the code is cut into lines is not part of the property)
+    \* (loc_known = FALSE: the observer found no list that is the builder's at this stop - it lives somewhere the observer
+    \*  does not look, e.g. on the evaluation stack between a helper's return and the assignment; nothing is said about it then)
+    ELSE IF hasPrev /\ ev.loc_known /\ prev.loc_known /\ ~StepN(AtS(prev), s) THEN "builder-steps"
     ELSE IF ~ReaderOK(b) THEN "reader-result"
     ELSE IF ~CoordsOK(b) THEN "reader-coords"
     ELSE IF ev.b_len < ev.pub_len THEN "table-lost"
